@@ -80,6 +80,8 @@ class RefFSM:
             script = self.spec['cond_' + origin].get(ev)
             if script is None:
                 continue
+            if origin == 'm' and 'cond_' + ev in self.spec.get('disabled_methods', ()):
+                continue    # the derived class has switched the inherited method off
             key = ('cond', ev, origin)
             n = self.counts[key] = self.counts.get(key, 0) + 1
             self.log.append(('cb', 'cond', ev, origin, self.state, dict(data)))
@@ -97,6 +99,8 @@ class RefFSM:
             script = self.spec[hook + '_' + origin].get(state)
             if script is None:
                 continue
+            if origin == 'm' and f"{hook}_{state}" in self.spec.get('disabled_methods', ()):
+                continue    # the derived class has switched the inherited method off
             key = (hook, state, origin)
             n = self.counts[key] = self.counts.get(key, 0) + 1
             self.log.append(('cb', hook, state, origin, self.state, dict(data)))
@@ -276,6 +280,7 @@ def build_class(edzed, spec, idx):
         def cond(self, ev=ev, script=script):
             n = self.x_cnt[('cond', ev, 'm')] = self.x_cnt.get(('cond', ev, 'm'), 0) + 1
             self.x_log.append(('cb', 'cond', ev, 'm', self.state, dict(edzed.fsm_event_data.get())))
+            probe_readonly(edzed, self, ('cond', ev, 'm', n))
             return cond_value(script, n, self.state)
         ns['cond_' + ev] = cond
     for hook in ('enter', 'exit'):
@@ -294,6 +299,10 @@ def build_class(edzed, spec, idx):
         # an FSM definition derived from another one without any change
         base = type(f"GenFSMBase{idx}", (edzed.FSM,), ns)
         return type(f"GenFSM{idx}", (base,), {})
+    if derive == 'disable':
+        # the derived class switches some inherited callbacks off (name = None)
+        base = type(f"GenFSMBase{idx}", (edzed.FSM,), ns)
+        return type(f"GenFSM{idx}", (base,), {n: None for n in spec.get('disabled_methods', ())})
     if derive == 'split':
         # tables and every other callback in the base class, the rest in the derived class
         names = sorted(n for n in ns if n.split('_')[0] in ('cond', 'enter', 'exit'))
@@ -303,12 +312,28 @@ def build_class(edzed, spec, idx):
     return type(f"GenFSM{idx}", (edzed.FSM,), ns)
 
 
+def probe_readonly(edzed, fsm, what):
+    """The data obtained from fsm_event_data must refuse modifications (read-only access)."""
+    data = edzed.fsm_event_data.get()
+    fsm.x_cnt['ro_probes'] = fsm.x_cnt.get('ro_probes', 0) + 1
+    try:
+        data['vf_write_probe'] = 1
+    except TypeError:
+        return
+    try:
+        del data['vf_write_probe']
+    except Exception:       # pylint: disable=broad-except
+        pass
+    fsm.x_writable.append(what)
+
+
 def make_action(edzed, hook, state, origin, script, holder=None):
     def action(self=None):
         fsm = self if self is not None else holder[0]
         key = (hook, state, origin)
         n = fsm.x_cnt[key] = fsm.x_cnt.get(key, 0) + 1
         fsm.x_log.append(('cb', hook, state, origin, fsm.state, dict(edzed.fsm_event_data.get())))
+        probe_readonly(edzed, fsm, (hook, state, origin, n))
         if hook == 'enter':
             for ev, tag in chain_requests(script, n):
                 ret = fsm.event(to_etype(edzed, ev), cuid=f"{state}.{origin}.{n}.{tag}")
@@ -368,6 +393,7 @@ def run_group(spec, seqs, ctx, idx=0):
                     n = fsm.x_cnt[('cond', ev, 'i')] = fsm.x_cnt.get(('cond', ev, 'i'), 0) + 1
                     fsm.x_log.append(('cb', 'cond', ev, 'i', fsm.state,
                                       dict(edzed.fsm_event_data.get())))
+                    probe_readonly(edzed, fsm, ('cond', ev, 'i', n))
                     return cond_value(script, n, fsm.state)
                 kw['cond_' + ev] = cond
             for hook in ('enter', 'exit'):
@@ -388,7 +414,7 @@ def run_group(spec, seqs, ctx, idx=0):
                 kw['on_output'] = edzed.Event(dest, 'output')
             if spec.get('initdef') is not None:
                 kw['initdef'] = spec['initdef']
-            fsm = cls(name, x_log=log, x_cnt={}, **kw)
+            fsm = cls(name, x_log=log, x_cnt={}, x_writable=[], **kw)
             holder[0] = fsm
             fsms.append(fsm)
             dests.append(dest)
@@ -535,6 +561,12 @@ def judge_one(spec, seq, k, ref, out, fsms, results, ctx):
     if not out.get('started'):
         raise core.Violation('startup-failed', f"{where0}: did not start: {sim.init_exc}")
     fsm = fsms[k]
+    ctx.count('readonly_probes', fsm.x_cnt.get('ro_probes', 0))
+    if fsm.x_writable:
+        raise core.Violation(
+            'event-data-writable',
+            f"{where0}: the mapping from fsm_event_data.get() accepted a modification in "
+            f"(hook, state/event, origin, call#) {fsm.x_writable[:4]}")
     if k >= len(results):
         return      # simulation was stopped by an earlier instance (predicted there)
     # the init part of the real log precedes the first stimulus: it is the prefix
@@ -698,8 +730,12 @@ def random_spec(rng):
             spec['on_exit'][s] = 1
         if rng.random() < 0.12:
             spec['timers'][s] = target()
-    if rng.random() < 0.15:
-        spec['derive'] = rng.choice(['plain', 'split'])
+    if rng.random() < 0.2:
+        spec['derive'] = rng.choice(['plain', 'split', 'disable'])
+        if spec['derive'] == 'disable':
+            names = ['cond_' + e for e in spec['cond_m']] + ['enter_' + st for st in spec['enter_m']] \
+                + ['exit_' + st for st in spec['exit_m']]
+            spec['disabled_methods'] = sorted(n for n in names if rng.random() < 0.5)
     if rng.random() < 0.12:
         spec['exit_fail'] = rng.choice(states)
     # keep_last must not leave the FSM uninitialised after the init transition: checked by caller
